@@ -1,8 +1,18 @@
 (* Properties_C05.v — property C05: the point-to-triangle kernel returns the true closest point.
    Only statements; every proof is `exact <lemma of KernelProofs.v>`. *)
 From Coq Require Import Reals Lra.
-From SC Require Import Num Vec3 VecR Kernel KernelProofs Rot.
+From SC Require Import Num Vec3 VecR Kernel Kernel_gen KernelProofs Rot.
 Local Open Scope R_scope.
+
+(* 0. THE MODEL IS THE SOURCE.  Kernel_gen.v is regenerated on every run from the body of
+   contact_model_abstract::compute_node_triangle_distance (harness/translate_kernel.py: declarations and guarded returns,
+   statement by statement, over an abstract number type).  The hand-written function of Kernel.v, about which everything below
+   (and C06, C07) is stated, is syntactically that function, for every number type (reals for the theorems, binary64 for the
+   runs): a change of the C++ kernel changes Kernel_gen.v and this proof no longer checks. *)
+Theorem kernel_model_is_what_the_source_says : (kernel_translation_ok = true :> bool) /\
+  forall (T : Type) (N : Num T) (p a b c : vec3 T), kernel_gen N p a b c = kernel N p a b c.
+Proof. split; [reflexivity | intros; reflexivity]. Qed.
+Print Assumptions kernel_model_is_what_the_source_says.
 
 (* barycentric coordinates are non-negative ... *)
 Theorem bary_nonneg : forall p a b c : vR, nondegenerate a b c ->
